@@ -1,5 +1,5 @@
 (* C19 - property theorems only. *)
-From HV Require Import Prelude C19_Model C19_Check C19_Proofs.
+From HV Require Import Prelude C19_Model C19_Check C19_Proofs C19_ProofsExit.
 
 (* str.splitlines inverts "one entry per line", duplicates and empty entries included *)
 Theorem C19_splitlines_join : forall ids, Forall cleanP ids -> splitlines (join_lines ids) = ids.
@@ -170,7 +170,7 @@ Print Assumptions C19_holds_cli_sound.
 
 (* unknown entries: the run exits like, and writes what, the run without them writes ("ignored"), and when it
    completes with warnings enabled it says something the other run does not say ("reported"); where the
-   demand is 2 every unknown entry (up to five) is a word of a warning *)
+   demand is >= 2 one of the unknown entries, where it is 3 every unknown entry (up to five) is a word of a warning *)
 Theorem C19_holds_unknown_sound : forall k e o msgs, holds_unknown k = true -> c_ref k = Some (e, o, msgs) ->
   c_exit k = e /\ (e = 0 -> c_out k = o)
   /\ (c_exit k = 0 -> c_verbose k = true ->
@@ -181,6 +181,93 @@ Print Assumptions C19_holds_unknown_sound.
 
 Theorem C19_reported_sound : forall demand unk logs msgs, reported demand unk logs msgs = true -> unk <> [] ->
   (1 <= demand -> new_message logs msgs = true)
-  /\ (2 <= demand -> lenZ unk <= 5 -> forall x, In x unk -> named logs x = true).
+  /\ (2 <= demand -> exists x, In x unk /\ named logs x = true)
+  /\ (3 <= demand -> lenZ unk <= 5 -> forall x, In x unk -> named logs x = true).
 Proof. exact reported_sound. Qed.
 Print Assumptions C19_reported_sound.
+
+(* ---- "a failing run exits non-zero" ----------------------------------------- *)
+
+(* what the checker calls a failing run: a documented output file is absent after the run, or the documented
+   Python entry point, given the same parameters, raises or leaves a documented output out *)
+Theorem C19_failing_spec : forall k, failing k = true <->
+  c_missing k <> []
+  \/ (c_both k = false /\ c_ids_both k = false /\ ((exists e, c_py k = Err e) \/ c_py_missing k <> [])).
+Proof. exact failing_spec. Qed.
+Print Assumptions C19_failing_spec.
+
+Theorem C19_failing_exits_nonzero : forall k, holds_cli k = true -> failing k = true -> c_exit k <> 0.
+Proof. exact failing_exits_nonzero. Qed.
+Print Assumptions C19_failing_exits_nonzero.
+
+Theorem C19_missing_output_exits_nonzero : forall k, holds_cli k = true -> c_missing k <> [] -> c_exit k <> 0.
+Proof. exact missing_output_exits_nonzero. Qed.
+Print Assumptions C19_missing_output_exits_nonzero.
+
+(* the command line and the Python entry point agree on success and failure *)
+Theorem C19_cli_python_agree : forall k, holds_cli k = true -> c_both k = false -> c_ids_both k = false ->
+  (c_exit k = 0 <-> exists o, c_py k = Ok o /\ c_py_missing k = [])
+  /\ (c_exit k = 0 -> c_missing k = [] /\ forall o, c_py k = Ok o -> c_out k = o).
+Proof. exact cli_python_agree. Qed.
+Print Assumptions C19_cli_python_agree.
+
+(* the model of index_haps' tail: a run that completes has written <out>.gz and <out>.gz.tbi, left no temporary
+   file behind, and was given a file tabix accepted *)
+Theorem C19_index_success_writes_both : forall acc f, index_tail false acc = Ok f ->
+  acc = true /\ present OutGz f = true /\ present OutTbi f = true
+  /\ present TmpPlain f = false /\ present TmpGz f = false /\ present TmpTbi f = false
+  /\ missing_of f = [].
+Proof. exact index_success_writes_both. Qed.
+Print Assumptions C19_index_success_writes_both.
+
+Theorem C19_index_exit_zero_iff_outputs : forall acc,
+  exit_code (index_tail false acc) = 0 <-> exists f, index_tail false acc = Ok f /\ missing_of f = [].
+Proof. exact index_exit_zero_iff_outputs. Qed.
+Print Assumptions C19_index_exit_zero_iff_outputs.
+
+Theorem C19_index_refused_exits_one : index_tail false false = Err E_OS /\ exit_code (index_tail false false) = 1.
+Proof. split; [exact index_tail_refused|exact index_refused_exit]. Qed.
+Print Assumptions C19_index_refused_exits_one.
+
+(* moving a temporary file only if it exists lets a refused file through with exit status 0 and no index *)
+Theorem C19_index_guarded_refuted :
+  index_tail true false = Ok [OutGz]
+  /\ exit_code (index_tail true false) = 0
+  /\ missing_of [OutGz] = [OutTbi]
+  /\ index_tail true true = index_tail false true.
+Proof. exact index_guarded_refuted. Qed.
+Print Assumptions C19_index_guarded_refuted.
+
+(* the order of lines tabix accepts: two lines of one sequence name are in ascending order of start with only
+   lines of that name between them, and no line ends before it begins *)
+Theorem C19_tabix_accepts_iff : forall ls, tabix_accepts ls = true <-> block_sorted ls /\ coords_ok ls.
+Proof. exact tabix_accepts_iff. Qed.
+Print Assumptions C19_tabix_accepts_iff.
+
+(* index --no-sort exits 0 exactly on lines in that order, and then both documented files exist *)
+Theorem C19_index_nosort_zero_iff_order : forall ls,
+  exit_code (index_nosort false ls) = 0 <-> block_sorted ls /\ coords_ok ls.
+Proof. exact index_nosort_zero_iff_order. Qed.
+Print Assumptions C19_index_nosort_zero_iff_order.
+
+Theorem C19_index_nosort_success : forall ls f, index_nosort false ls = Ok f ->
+  tabix_accepts ls = true /\ missing_of f = [].
+Proof. exact index_nosort_success. Qed.
+Print Assumptions C19_index_nosort_success.
+
+Example C19_tabix_accepts_examples :
+  tabix_accepts [(1, 10, 15); (1, 20, 30); (2, 5, 6)] = true
+  /\ tabix_accepts [(1, 20, 30); (1, 10, 15)] = false
+  /\ tabix_accepts [(1, 10, 11); (2, 3, 3); (1, 10, 21)] = false
+  /\ index_nosort false [(1, 20, 30); (1, 10, 15)] = Err E_OS
+  /\ index_nosort true [(1, 20, 30); (1, 10, 15)] = Ok [OutGz].
+Proof. exact tabix_accepts_examples. Qed.
+Print Assumptions C19_tabix_accepts_examples.
+
+(* what agreement of the observed index --no-sort run with the model means *)
+Theorem C19_agree_index_sound : forall k ls, agree_index k = true -> c_index k = Some ls ->
+  (c_exit k = 0 <-> tabix_accepts ls = true)
+  /\ (c_exit k = 0 -> c_missing k = [])
+  /\ (c_exit k <> 0 -> c_exit k = 1 /\ c_missing k <> []).
+Proof. exact agree_index_sound. Qed.
+Print Assumptions C19_agree_index_sound.
